@@ -111,6 +111,14 @@ def main():
             print("HARNESS-ERROR:", json.dumps({"error": f"{agg['n']} runs but nothing was judged: counters {missing} are zero"}))
             agg["harness"].append({"error": f"essential counters zero: {missing}"})
             code = core.EXIT_HARNESS
+    # foreign failures (runs abandoned because subject and reference refuse alike) stay rare on the pinned tree
+    # (<= 1.5 % for every check); a batch that abandons much more has explored too little to be believed
+    n_foreign = sum(agg["foreign"].values())
+    if code == core.EXIT_OK and agg["n"] >= 1000 and n_foreign > 0.06 * agg["n"]:
+        print("HARNESS-ERROR:", json.dumps({"error": f"{n_foreign} of {agg['n']} runs were abandoned as foreign failures "
+                                            f"({dict(agg['foreign'])}): too little was judged"})[:600])
+        agg["harness"].append({"error": "foreign-failure rate above 6 %"})
+        code = core.EXIT_HARNESS
     drift = core.api_drift()
     if drift:
         print(f"NOTE: the library's public API differs from the snapshot the operation alphabets were written against "
